@@ -388,6 +388,7 @@ class SSocket:
 
     def settimeout(self, t):
         self.to = t
+        self.sched.ev("tsettimeout", sid=self.id, value=-1 if t is None else t)
 
     def gettimeout(self):
         return self.to
@@ -427,7 +428,7 @@ class SSocket:
         self.sched.yield_("connect")
         self.cid = self.net.new_conn(self, addr)
         ok = self.net.accepts(self.cid)
-        self.sched.ev("tconnect", cid=self.cid, host=str(addr[0]), port=int(addr[1]), ok=bool(ok))
+        self.sched.ev("tconnect", cid=self.cid, sid=self.id, host=str(addr[0]), port=int(addr[1]), ok=bool(ok))
         if not ok:
             self.closed_by_refusal = True
             self._raise(ConnectionRefusedError(errno.ECONNREFUSED, "Connection refused"))
